@@ -57,19 +57,40 @@ func ZZ_C05_Header() {
 func ZZ_C05_TextPack() {
 	p := NewTextPack()
 	zz5Fill(p, true) // one record with symbolic fields
+	// the expected record list is kept by the harness (not read back from the pack): records added
+	// through AddText and through the bulk AddTexts, to an empty and to a non-empty pack
+	want := append([]TextRec{}, p.records...)
 	if zz5Focus == -1 {
-		switch zzvf.Choose(3) {
+		mk := func() TextRec { return TextRec{Div: zzvf.Byte(), Hash: zzvf.Int32(), Text: zzvf.String(1)} }
+		switch zzvf.Choose(6) {
 		case 0:
 			p.records = p.records[:0]
+			want = nil
 		case 2:
-			p.AddText(TextRec{Div: zzvf.Byte(), Hash: zzvf.Int32(), Text: zzvf.String(1)})
+			r := mk()
+			p.AddText(r)
+			want = append(want, r)
+		case 3: // batch of two appended to a non-empty pack
+			r1, r2 := mk(), mk()
+			p.AddTexts([]TextRec{r1, r2})
+			want = append(want, r1, r2)
+		case 4: // batch into an empty pack, then a second batch, then a single record
+			r1, r2, r3 := mk(), mk(), mk()
+			p.records = nil
+			p.AddTexts([]TextRec{r1})
+			p.AddTexts([]TextRec{r2})
+			p.AddText(r3)
+			want = []TextRec{r1, r2, r3}
+		case 5: // empty batch
+			p.AddTexts(nil)
+			p.AddTexts([]TextRec{})
 		}
 	}
 	zz5HeaderForm(p)
 	var body zz5Secs
-	body.add("record-count", zz5Dec(int64(len(p.records))))
-	for i := range p.records {
-		r := p.records[i]
+	body.add("record-count", zz5Dec(int64(len(want))))
+	for i := range want {
+		r := want[i]
 		body.add("record", []byte{r.Div}, zz5I32(r.Hash), zz5Text(r.Text))
 	}
 	zz5Check("TextPack", 0x0700, p, &p.AbstractPack, body)
